@@ -111,17 +111,24 @@ def recordPrefix (scope ts : Bytes) (level : Nat) : Bytes :=
   else
     ts ++ [32, 91, levelAbbreviation level, 93, 32]
 
-/-- `(*Logger).write`: the bytes handed to the sink, `none` = panic. -/
-def write (scope ts : Bytes) (level : Nat) (message : Bytes) : Option Bytes :=
-  let message :=
-    match indexByte message CR with
-    | some index => message.take index ++ ellipsis
-    | none => message
+/-- First step of `write`: truncate at a carriage return. -/
+def truncateCR (message : Bytes) : Bytes :=
+  match indexByte message CR with
+  | some index => message.take index ++ ellipsis
+  | none => message
+
+/-- Second step of `write`: the only newline must be the last byte (`none` = panic). -/
+def truncateLF (message : Bytes) : Option Bytes :=
   match indexByte message LF with
   | none => none
   | some index =>
-    let message := if index ≠ message.length - 1 then message.take index ++ ellipsis else message
-    some (neutralize (recordPrefix scope ts level ++ message))
+    if index ≠ message.length - 1 then some (message.take index ++ ellipsis) else some message
+
+/-- `(*Logger).write`: the bytes handed to the sink, `none` = panic. -/
+def write (scope ts : Bytes) (level : Nat) (message : Bytes) : Option Bytes :=
+  match truncateLF (truncateCR message) with
+  | none => none
+  | some message => some (neutralize (recordPrefix scope ts level ++ message))
 
 /-! ## Logger -/
 
